@@ -2,6 +2,17 @@
 """seedtest.py <patch.diff> <ID> [<ID> ...] : apply a seeded change to /repo, run the quick checks,
 undo the change (always), print one line per check."""
 import subprocess, sys, os
+# seedtest.py --tree <dir> <ID>... : run the checks against a scratch tree that already contains the change
+# (VERIF_REPO), leaving /repo alone -- used while other work builds from /repo concurrently
+if sys.argv[1] == "--tree":
+    tree = os.path.abspath(sys.argv[2]); ids = sys.argv[3:]
+    env = dict(os.environ, VERIF_REPO=tree, VERIF_EVIDENCE_DIR="/tmp/seed-evidence", VERIF_REPLAY_DIR="/tmp/seed-replays",
+               VERIF_SEED=os.environ.get("VERIF_SEED", "1"))
+    for i in ids:
+        p = subprocess.run([sys.executable, os.path.join(os.path.dirname(__file__), "check.py"), i], capture_output=True, text=True, env=env)
+        lines = [l for l in p.stdout.splitlines() if l.startswith(("VIOLATION", "OK", "KNOWN"))]
+        print(i, "exit", p.returncode, "|", " ; ".join(lines)[:600])
+    sys.exit(0)
 patch = os.path.abspath(sys.argv[1]); ids = sys.argv[2:]
 def git(*a): return subprocess.run(["git", "-C", "/repo"] + list(a), capture_output=True, text=True)
 assert git("status", "--porcelain").stdout.strip() == "", "/repo not clean"
